@@ -282,7 +282,7 @@ func (v *Val) Render() string {
 		return strconv.FormatBool(v.B)
 	case TTime:
 		g := v.Tm.Go()
-		return "@" + strconv.FormatInt(g.Unix(), 10) + "." + strconv.Itoa(g.Nanosecond()) + "[" + v.Tm.Zone + "]"
+		return "@" + strconv.FormatInt(g.Unix(), 10) + "." + strconv.Itoa(g.Nanosecond()) // the instant; zones are not part of the value's identity
 	case TList:
 		xs := make([]string, len(v.L))
 		for i, e := range v.L {
